@@ -109,4 +109,31 @@ TARGETS = {
                  methods=dict(_QMETHODS)),
         ],
     ),
+    "PaxosGen": dict(
+        out="Gen/PaxosGen.v", tie="C12/GenTie.v",
+        header="From HS Require Import Base.Prelude Base.PyLib.",
+        classes=[
+            dict(file="happysimulator/components/consensus/paxos.py", cls="Ballot", dataclass_order=True,
+                 fields={"number": "Z", "node_id": "Z"}, methods={}),
+        ],
+    ),
+    # the WAL never looks at a value or a timestamp: both are opaque integers here
+    "WalGen": dict(
+        out="Gen/WalGen.v", tie="C15/GenTie.v",
+        header="From HS Require Import Base.Prelude Base.PyLib.",
+        classes=[
+            dict(file="happysimulator/components/storage/wal.py", cls="SyncEveryWrite", fields={},
+                 methods={"should_sync": dict(params={"writes_since_sync": "Z", "time_since_sync_s": "Z"}, pure=True)}),
+            dict(file="happysimulator/components/storage/wal.py", cls="SyncOnBatch", fields={"batch_size": "Z"},
+                 methods={"should_sync": dict(params={"writes_since_sync": "Z", "time_since_sync_s": "Z"}, pure=True)}),
+            dict(file="happysimulator/components/storage/wal.py", cls="WALEntry",
+                 fields={"sequence_number": "Z", "key": "Z", "value": "Z", "timestamp_s": "Z"}, methods={}),
+            dict(file="happysimulator/components/storage/wal.py", cls="WriteAheadLog",
+                 fields={"_entries": "list WALEntry", "_synced_up_to_sequence": "Z", "_writes_since_sync": "Z",
+                         "_entries_recovered": "Z"},
+                 methods={"synced_up_to": dict(pure=True), "size": dict(pure=True),
+                          "recover": dict(ret="list WALEntry"), "truncate": dict(params={"up_to_sequence": "Z"}),
+                          "crash": {}}),
+        ],
+    ),
 }
